@@ -1,5 +1,312 @@
+import Casket.Model.FCGI
+import Casket.Spec.FCGI
+import Casket.Model.FCGIRoute
+import Casket.Spec.FCGIRoute
 import Driver.Proto
-/- Streams of C13 (stub: not built yet). -/
+/-
+Streams of C13.
+  c13.wire   id pairs body rk      out = hex of everything FCGIClient.Do wrote | PANIC:<class>
+     pairs = comma list of  klen:vlen:seed  (name = index digit ++ filler, value = filler)
+             or  x<hexname>=<hexvalue> ;  body = len:seed | x<hex> ;  rk = how the body reader behaves
+-/
 namespace Driver.C13
-def streams : List Driver.Stream := []
+open Casket.Fault Casket.FCGI Casket.FCGISpec
+
+/-- the deterministic filler the harness uses for long names and values -/
+def filler (seed n : Nat) : Bytes := (List.range n).map fun i => UInt8.ofNat (97 + (seed + i) % 26)
+
+def parsePair (i : Nat) (s : String) : Option Pair :=
+  if s.startsWith "x" then
+    match (s.drop 1).toString.splitOn "=" with
+    | [k, v] => do pure (← Driver.unhex k, ← Driver.unhex v)
+    | _ => none
+  else
+    match s.splitOn ":" with
+    | [kl, vl, sd] => do
+      let kl ← kl.toNat?
+      let vl ← vl.toNat?
+      let sd ← sd.toNat?
+      pure (if kl = 0 then [] else UInt8.ofNat (48 + i) :: filler sd (kl - 1), filler (sd + 7) vl)
+    | _ => none
+
+def parsePairs (s : String) : Option (List Pair) :=
+  if s = "" then some [] else
+  let items := s.splitOn ","
+  (items.zip (List.range items.length)).mapM fun (it, i) => parsePair i it
+
+def parseBody (s : String) : Option Bytes :=
+  if s.startsWith "x" then Driver.unhex (s.drop 1).toString
+  else match s.splitOn ":" with
+    | [l, sd] => do pure (filler (← sd.toNat?) (← l.toNat?))
+    | _ => none
+
+/-- `n` no reader, `w` a reader with WriteTo, `r<c>` a plain reader handing out c bytes per Read -/
+def parseReader (rk : String) (bodyLen : Nat) : Option BodyReader :=
+  if rk == "n" then some .none
+  else if rk == "w" then some .writerTo
+  else if rk.startsWith "r" then
+    (rk.drop 1).toString.toNat?.map fun c => .plain (List.replicate (bodyLen + 1) c) false
+  else none
+
+def wireModel : List String → String
+  | [id, ps, body, rk] =>
+    match id.toNat?, parsePairs ps, parseBody body with
+    | some id, some ps, some body =>
+      match parseReader rk body.length with
+      | none => "bad-case"
+      | some rk =>
+      match clientWireVia id ps body rk with
+      | .ok w => Driver.hex w
+      | .error f => "PANIC:" ++ f.name
+    | _, _, _ => "bad-case"
+  | _ => "bad-case"
+
+def wireJudge (f : List String) (out : String) : String :=
+  match f with
+  | [id, ps, body, _rk] =>
+    match id.toNat?, parsePairs ps, parseBody body with
+    | some id, some ps, some body =>
+      if out.startsWith "PANIC" then "bad:panic:" ++ out
+      else match Driver.unhex out with
+        | some w => wireVerdict id ps body w
+        | none => "bad:unparsable:" ++ (out.take 40).toString
+    | _, _, _ => "bad:unparsable:case"
+  | _ => "bad:unparsable:case"
+
+def finName : ReadErr → String
+  | .eof => "eof"
+  | .unexpectedEOF => "ueof"
+  | .badVersion => "badver"
+
+def showView : R ViewResult → String
+  | .error f => "PANIC:" ++ f.name
+  | .ok .unmodelled => "unmodelled"
+  | .ok .statusError => "err:status"
+  | .ok (.view v) =>
+    let hs := ",".intercalate (v.headers.map fun (k, x) => Driver.hex k ++ ":" ++ Driver.hex x)
+    s!"st={v.status};tx={Driver.hex v.statusText};h={hs};body={Driver.hex v.body};fin={finName v.fin};stderr={Driver.hex v.stderr}"
+
+/-- c13.demux  outhex errhex rawhex : the responder's intended stdout and stderr, and its framing -/
+def demuxModel : List String → String
+  | [_, _, raw] => match Driver.unhex raw with
+    | some raw => showView (clientView raw)
+    | none => "bad-case"
+  | _ => "bad-case"
+
+def parseField (pre : String) (s : String) : Option String :=
+  if s.startsWith pre then some (s.drop pre.length).toString else none
+
+def parseHeaderList (s : String) : Option (List (Bytes × Bytes)) :=
+  if s = "" then some [] else
+  (s.splitOn ",").mapM fun kv =>
+    match kv.splitOn ":" with
+    | [k, v] => do pure (← Driver.unhex k, ← Driver.unhex v)
+    | _ => none
+
+def parseView (out : String) : Option ViewResult :=
+  if out = "err:status" then some .statusError
+  else if out = "unmodelled" then some .unmodelled
+  else match out.splitOn ";" with
+    | [st, tx, h, body, fin, se] => do
+      let st ← (← parseField "st=" st).toNat?
+      let tx ← Driver.unhex (← parseField "tx=" tx)
+      let hs ← parseHeaderList (← parseField "h=" h)
+      let body ← Driver.unhex (← parseField "body=" body)
+      let fin ← match (← parseField "fin=" fin) with
+        | "eof" => some ReadErr.eof
+        | "ueof" => some ReadErr.unexpectedEOF
+        | "badver" => some ReadErr.badVersion
+        | _ => none
+      let se ← Driver.unhex (← parseField "stderr=" se)
+      pure (.view { status := st, statusText := tx, headers := hs, body := body, stderr := se, fin := fin })
+    | _ => none
+
+def demuxJudge (f : List String) (out : String) : String :=
+  match f with
+  | [o, e, _] =>
+    match Driver.unhex o, Driver.unhex e with
+    | some o, some e =>
+      if out.startsWith "PANIC" then "bad:panic:" ++ out
+      else match parseView out with
+        | some v => respVerdict o e v
+        | none => "bad:response:" ++ (out.take 60).toString
+    | _, _ => "bad:unparsable:case"
+  | _ => "bad:unparsable:case"
+
+/-! c13.route  cs rules files method pathhex queryhex headershex bodyhex remote te
+     rules = `;;`-list of  path|ext|split|index,…|except,…|K=V,…      files = comma list
+     out   = next | err500 | sent:<rule>;env=<sorted hexk:hexv,…>;stdin=<hex> | unmodelled -/
+section route
+open Casket.FCGIRoute Casket.FCGIRouteSpec
+
+def b (s : String) : Bytes := Casket.Fault.bytes s
+
+def splitList (sep : String) (s : String) : List String := if s = "" then [] else s.splitOn sep
+
+def parseRule (s : String) : Option Rule :=
+  match s.splitOn "|" with
+  | [p, e, sp, ix, ex, env] => do
+    let envs ← (splitList "," env).mapM fun kv =>
+      match kv.splitOn "=" with
+      | [k, v] => some (b k, b v)
+      | _ => none
+    pure { path := b p, ext := b e, split := b sp, index := (splitList "," ix).map b,
+           except := (splitList "," ex).map b, env := envs, root := b "/ROOT" }
+  | _ => none
+
+/-- header lines `Name: value` (LF separated) → canonical name, values in order -/
+def parseReqHeaders (raw : Bytes) : List (Bytes × List Bytes) :=
+  let lines := (Casket.Fault.splitByte 0x0a raw).filter (!·.isEmpty)
+  lines.foldl (fun acc line =>
+    match Casket.Fault.indexOf line [0x3a] with
+    | none => acc
+    | some i =>
+      let k := Casket.FCGI.canonicalKey (line.take i) true
+      let v := Casket.FCGI.trimSpTab (line.drop (i + 1))
+      if acc.any (·.1 == k) then acc.map (fun h => if h.1 == k then (h.1, h.2 ++ [v]) else h)
+      else acc ++ [(k, [v])]) []
+
+structure RouteCase where
+  cs : Bool
+  rules : List Rule
+  fs : FS
+  req : Req
+
+def parseRouteCase : List String → Option RouteCase
+  | [cs, rules, files, method, path, query, hdrs, body, remote, te] => do
+    let rules ← (splitList ";;" rules).mapM parseRule
+    let path ← Driver.unhex path
+    let query ← Driver.unhex query
+    let hdrs ← Driver.unhex hdrs
+    let body ← Driver.unhex body
+    let hs := parseReqHeaders hdrs
+    -- the harness adds Content-Length for a body sent with a length
+    let hs := if te == "cl" then hs ++ [(b "Content-Length", [b (toString body.length)])] else hs
+    pure { cs := cs == "1", rules := rules, fs := (splitList "," files).map b,
+           req := { method := b method, host := b "example.test:8080", path := path, rawQuery := query,
+                    remoteAddr := b remote, headers := hs,
+                    contentLength := if te == "cl" then body.length else 0, body := body } }
+  | _ => none
+
+def srv : Server := { name := b "example.test", port := b "8080", software := b "Casket/verif" }
+
+def showEnv (env : List (Bytes × Bytes)) : String :=
+  ",".intercalate ((Casket.FCGI.sortHeaders env).map fun (k, v) => Driver.hex k ++ ":" ++ Driver.hex v)
+
+def routeModel (f : List String) : String :=
+  match parseRouteCase f with
+  | none => "bad-case"
+  | some c =>
+    match route c.cs c.fs c.req.path c.rules with
+    | .next => "next"
+    | .err500 => "err500"
+    | .unmodelled => "unmodelled"
+    | .sent i fpath =>
+      match c.rules[i]? with
+      | none => "bad-case"
+      | some rule =>
+        match buildEnv c.cs srv c.req rule fpath with
+        | none => "unmodelled"
+        | some env => s!"sent:{i};env={showEnv env};stdin={Driver.hex (stdinOf c.req)}"
+
+def routeJudge (f : List String) (out : String) : String :=
+  match parseRouteCase f with
+  | none => "bad:unparsable:case"
+  | some c =>
+    if out.startsWith "PANIC" then "bad:panic:" ++ out
+    else if out == "next" then routeVerdict c.cs c.fs c.req.path c.rules .next
+    else if out == "err500" then routeVerdict c.cs c.fs c.req.path c.rules .err500
+    else if out == "unmodelled" then "ok"
+    else match out.splitOn ";" with
+      | [sent, env, stdin] =>
+        match (parseField "sent:" sent).bind String.toNat?, (parseField "env=" env).bind parseHeaderList,
+              (parseField "stdin=" stdin).bind Driver.unhex with
+        | some i, some env, some stdin =>
+          match c.rules[i]? with
+          | some rule => envVerdict c.cs c.req rule env stdin
+          | none => "bad:unparsable:rule index"
+        | _, _, _ => "bad:unparsable:" ++ (out.take 60).toString
+      | _ => "bad:unparsable:" ++ (out.take 60).toString
+end route
+
+/-! c13.child  vars hdrs body status respbody
+   The real FCGIClient talks to Go's net/http/fcgi child (a standard-conforming responder written
+   independently of casket).  vars = `;`-list NAME=hexvalue of extra CGI variables, hdrs = `;`-list
+   HTTP_NAME=hexvalue, body = len:seed | x<hex>.  The answer is what the child's handler saw (variables
+   via fcgi.ProcessEnv, headers via the request, body) and what the client got back; the property is
+   that it is the input, so model and judge both render the input. -/
+def parseKVs (s : String) : Option (List (Bytes × Bytes)) :=
+  (splitList ";" s).mapM fun kv =>
+    match kv.splitOn "=" with
+    | [k, v] => do pure (b k, ← Driver.unhex v)
+    | _ => none
+
+/-- `HTTP_X_FOO` → `X-Foo` (net/http/cgi: drop `HTTP_`, `_` → `-`, canonical MIME key) -/
+def headerOfVar (k : Bytes) : Bytes :=
+  Casket.FCGI.canonicalKey ((k.drop 5).map fun c => if c == 0x5f then 0x2d else c) true
+
+def showKVs (l : List (Bytes × Bytes)) : String :=
+  ",".intercalate ((Casket.FCGI.sortHeaders l).map fun (k, v) => Driver.hex k ++ ":" ++ Driver.hex v)
+
+def childExpected : List String → Option String
+  | [vars, hdrs, body, status, rb] => do
+    let vars ← parseKVs vars
+    let hdrs ← parseKVs hdrs
+    let body ← parseBody body
+    let _ ← status.toNat?
+    let rb ← Driver.unhex rb
+    pure s!"vars={showKVs vars};hdrs={showKVs (hdrs.map fun (k, v) => (headerOfVar k, v))};body={Driver.hex body};st={status};resp={Driver.hex rb}"
+  | _ => none
+
+def childModel (f : List String) : String := (childExpected f).getD "bad-case"
+
+def childJudge (f : List String) (out : String) : String :=
+  match childExpected f with
+  | none => "bad:unparsable:case"
+  | some e =>
+    if out == e then "ok"
+    else if out.startsWith "PANIC" then "bad:panic:" ++ out
+    else "bad:child:a standard responder did not receive what was sent, or the client not what it answered"
+
+/-! c13.reads  rawhex plen chunk zeroEvery
+   The real streamReader read call by call with a buffer of `plen` bytes, over a connection that
+   delivers `chunk` bytes per Read (0 = all at once) and returns (0, nil) on every `zeroEvery`-th
+   call (0 = never).   out = <split> TAB <whole>,  each  zero=<calls that returned (0,nil)>;out=<hex>;err=<hex>;fin=<…> -/
+def showTrace : R Trace → String
+  | .error f => "PANIC:" ++ f.name
+  | .ok t => s!"zero={t.zero};out={Driver.hex t.out};err={Driver.hex t.stderr};fin={finName t.fin}"
+
+def readsModel : List String → String
+  | [raw, plen, _, _] => match Driver.unhex raw, plen.toNat? with
+    | some raw, some plen => let t := showTrace (readTrace raw plen); t ++ "\t" ++ t
+    | _, _ => "bad-case"
+  | _ => "bad-case"
+
+def zeroOf (half : String) : Option Nat :=
+  match half.splitOn ";" with
+  | z :: _ => (parseField "zero=" z).bind String.toNat?
+  | _ => none
+
+def dropZero (half : String) : String := ";".intercalate ((half.splitOn ";").drop 1)
+
+def readsJudge (f : List String) (out : String) : String :=
+  match f with
+  | [raw, _, _, _] =>
+    match Driver.unhex raw, out.splitOn "\t" with
+    | some raw, [a, b] =>
+      if out.startsWith "PANIC" || b.startsWith "PANIC" then "bad:panic:" ++ out
+      else match zeroOf a, zeroOf b with
+        | some za, some zb => readsVerdict raw za zb (dropZero a == dropZero b)
+        | _, _ => "bad:no-progress:" ++ (out.take 80).toString
+    | _, _ => "bad:unparsable:" ++ (out.take 60).toString
+  | _ => "bad:unparsable:case"
+
+def streams : List Driver.Stream := [
+  { name := "c13.wire", model := wireModel, judge := wireJudge },
+  { name := "c13.demux", model := demuxModel, judge := demuxJudge },
+  { name := "c13.route", model := routeModel, judge := routeJudge },
+  { name := "c13.child", model := childModel, judge := childJudge },
+  { name := "c13.reads", model := readsModel, judge := readsJudge }
+]
+
 end Driver.C13
